@@ -299,7 +299,10 @@ func C02(tier string) int {
 		if hi > len(cases) {
 			hi = len(cases)
 		}
-		type viol struct{ key, what string; rep M }
+		type viol struct {
+			key, what string
+			rep       M
+		}
 		var vs []viol
 		classes := map[string]struct{}{}
 		outc := map[string]int{}
